@@ -9,7 +9,7 @@
 (* Append(v, s) and logs <<s, extra>> where extra is the token of the extra *)
 (* arguments it was called with.                                            *)
 (***************************************************************************)
-EXTENDS Naturals, Sequences, FiniteSets, TLC
+EXTENDS PipelineLaws
 
 CONSTANTS Stages,     \* set of stage ids
           MaxLen,     \* bound on the history length (model checking / export only)
@@ -26,27 +26,6 @@ vars == <<steps, lastOut, lastCalls, raised, hist>>
 Init == steps = <<>> /\ lastOut = <<>> /\ lastCalls = <<>> /\ raised = FALSE /\ hist = <<>>
 
 RemoveAt(s, i) == [j \in 1..(Len(s) - 1) |-> IF j < i THEN s[j] ELSE s[j + 1]]
-
-\* ------------------------------------------------------------------ pure laws
-RunOut(st, x) == x \o st
-RunCalls(st, extra) == [i \in 1..Len(st) |-> <<st[i], extra>>]
-
-\* index (1-based) of the first TRUE in a sequence of booleans, 0 if none
-FirstTrue(cs) == IF \E i \in 1..Len(cs) : cs[i]
-                 THEN CHOOSE i \in 1..Len(cs) : cs[i] /\ \A j \in 1..(i - 1) : ~cs[j]
-                 ELSE 0
-\* conditions evaluated by a branching run: all up to and including the first true one
-CondsEvaluated(cs) == IF FirstTrue(cs) = 0 THEN Len(cs) ELSE FirstTrue(cs)
-
-\* one feedback round, T rounds: the first round has no feedback processing
-Round(first) == IF first THEN <<"enc", "fwd", "dec", "gen", "fbch">>
-                         ELSE <<"proc", "enc", "fwd", "dec", "gen", "fbch">>
-RECURSIVE Rounds(_)
-Rounds(t) == IF t = 0 THEN <<>> ELSE IF t = 1 THEN Round(TRUE) ELSE Rounds(t - 1) \o Round(FALSE)
-
-\* multiple access with U users and D decoders (D = 1: joint)
-MacCalls(U, D) == [i \in 1..U |-> <<"enc", i>>] \o << <<"constraint", 0>>, <<"channel", 0>> >>
-                  \o [i \in 1..D |-> <<"dec", i>>]
 
 \* ------------------------------------------------------------ list-model actions
 AddStep(s) == /\ steps' = Append(steps, s)
@@ -74,13 +53,13 @@ Next == /\ Len(hist) < MaxLen
 Spec == Init /\ [][Next]_vars
 
 \* ---------------------------------------------------------------- properties
-EachOnceInOrder == /\ Len(lastCalls) <= Len(steps) \/ TRUE
-                   /\ (lastCalls # <<>> /\ ~raised) => TRUE
+
+
 RunAgreesWithList == (hist # <<>> /\ hist[Len(hist)].op = "run") =>
                         /\ lastOut = steps
                         /\ Len(lastCalls) = Len(steps)
                         /\ \A i \in 1..Len(steps) : lastCalls[i][1] = steps[i]
-LenLaw == \A i \in 1..Len(hist) : hist[i].op = "remove" => (hist[i].raised \/ TRUE)
+
 FirstTrueLaw == \A cs \in UNION {[1..n -> BOOLEAN] : n \in 0..3} :
                    LET f == FirstTrue(cs) IN
                    /\ f = 0 <=> \A i \in 1..Len(cs) : ~cs[i]
